@@ -21,6 +21,7 @@ func (ft *funcTr) expr(e ast.Expr, want types.Type) ([]pre, string) {
 	if p, v, ok := ft.partialLit(e); ok { // partiallit.go
 		return p, v
 	}
+	ft.refuseMayFailExpr(e) // segfail.go
 	tv, ok := t.info.Types[e]
 	if ok && tv.Value != nil {
 		T := tv.Type
